@@ -25,6 +25,7 @@ RULE = ("2..4 consumer tasks each advancing one tee child of an instrumented cla
         "child got exactly the source sequence (prefix for closed/cancelled children), no deadlock, lock free, the "
         "Cancel object itself propagated, source closed once all children are done. one evaluation = one executed "
         "schedule; distinct = distinct (scenario, schedule trace); non-trivial = schedule with >= 1 choice point")
+RULE += (' Also: every probe lock offers acquire() / release() coroutines next to the context protocol (a release that is only called releases nothing).')
 RULE += (' Also: cancelled consumers that abandon their child without closing it (what an async-for loop does), the child remaining a live lagging child.')
 RULE += (' Also: a tee of a tee child, the inner tee with a lock of its own.')
 RULE += (' Also: no pinned item at all is tolerated once every live child has yielded it.')
